@@ -19,6 +19,11 @@ Descriptor (JSON):
           UIter over the non-null entries (c_cfg).  Each yielded None still costs one next() call, so null
           entries are only generated where no faults are injected (gen_case(iter_none=True), C10).
   attr    {o: {"wref": bool}}   ("gen" objects are real generators: wref, gent, own frame)
+  cust    {f: {"hide": b, "hide_line": b, "prune": b, "form": "target"|"decorator"}}   (optional) the hook row of
+              (representative) frame f is installed through customize(target, elaborate=hook, hide=, hide_line=,
+              prune=) / @customize(...) instead of elaborate_frame.register; a row of kind "none" then means "no
+              elaborate= argument".  Model row: M_Frames.customized hide prune (user row) -- user result unless it
+              is None, else PRUNE iff prune; without a user hook the hide flag is the hide argument.
   ctxs    {f: ["ok", [cid...]] | ["raise"]}        fill {cid: ["ok", [item...]] | ["raise"]}
   faults  [tick...]   with_ctx bool   root item   mode "extract"|"outermost"
   item = ["F", f] | ["O", o]
@@ -132,6 +137,25 @@ def share_code(case, p_same=0.35, p_gen2=0.5):
     return case
 
 
+def add_customize(case, p=0.3):
+    """Post-processing: install a share of the hook rows through customize() with random flag combinations
+    (own deterministic RNG).  The bare next_inner as user result only with prune=False (see M_Frames.customized)."""
+    import json
+    rng = random.Random("customize:" + json.dumps(case, sort_keys=True))
+    cust = {}
+    for f in range(case["nf"]):
+        if code_rep(case, f) != f or rng.random() >= p:
+            continue
+        row = case["elab"].get(str(f), ["none", None, True])
+        prune = rng.random() < 0.4
+        if row[0] == "one" and row[1][0] == "N":
+            prune = False
+        cust[str(f)] = {"hide": rng.random() < 0.5, "hide_line": rng.random() < 0.5, "prune": prune,
+                        "form": rng.choice(["target", "decorator"])}
+    case["cust"] = cust
+    return case
+
+
 def sprinkle_iter_none(unwrap, p=0.6):
     """Insert None entries into iterator results at random positions (first, middle, last, several); own
     deterministic RNG so that the caller's random stream is untouched."""
@@ -145,7 +169,7 @@ def sprinkle_iter_none(unwrap, p=0.6):
 
 # ----------------------------------------------------------------- generation
 def gen_case(rng: random.Random, nf=5, no=5, *, faults=0, with_ctx=False, gens=False,
-             weird=True, mode="extract", samecode=True, gen2=False, iter_none=False):
+             weird=True, mode="extract", samecode=True, gen2=False, iter_none=False, customize=False):
     """Rank-ordered (acyclic) random tables; the last object may carry the linear self-loop."""
     def ritem(lo=-1, allow_frames=True):
         cands = [["O", i] for i in range(lo + 1, no)]
@@ -247,7 +271,8 @@ def gen_case(rng: random.Random, nf=5, no=5, *, faults=0, with_ctx=False, gens=F
             "root": ritem(), "mode": mode}
     # gen2 (a second instance of one generator function) is opt-in: oracles written for "gen" objects only
     # (c05.acyclic, c16 origin ground truth) must know the "gen2" unwrap kind first
-    return share_code(case, p_gen2=(0.5 if gen2 else 0.0)) if samecode else case
+    case = share_code(case, p_gen2=(0.5 if gen2 else 0.0)) if samecode else case
+    return add_customize(case) if customize else case
 
 
 def chain_case(n, self_loop=False):
@@ -306,9 +331,9 @@ def gen_dense(rng: random.Random, nf=7, no=4):
         else:
             elab[str(f)] = ["raise", None, ph]
     sprinkle_iter_none(unwrap)
-    return share_code({"nf": nf, "no": no, "frames": {str(f): ["plain"] for f in range(nf)}, "unwrap": unwrap,
-                       "elab": elab, "attr": {}, "ctxs": {}, "fill": {}, "faults": [], "with_ctx": False,
-                       "root": ["O", 0], "mode": "extract"})
+    return add_customize(share_code({"nf": nf, "no": no, "frames": {str(f): ["plain"] for f in range(nf)}, "unwrap": unwrap,
+                                     "elab": elab, "attr": {}, "ctxs": {}, "fill": {}, "faults": [], "with_ctx": False,
+                                     "root": ["O", 0], "mode": "extract"}))
 
 
 def chain_mid_case(n1, n2, mid, end):
@@ -449,8 +474,16 @@ def run_impl(case):
         if code_rep(case, f) != f:
             continue  # one hook per code object: registered for the representative frame
         spec = case["elab"].get(str(f), ["none", None, True])
-        if spec[0] == "none":
+        cu = case.get("cust", {}).get(str(f))
+        if spec[0] == "none" and not cu:
             continue  # default implementation: hides iff __tracebackhide__ is a local
+        if spec[0] == "none":
+            kw = dict(hide=cu["hide"], hide_line=cu["hide_line"], prune=cu["prune"])
+            if cu.get("form") == "decorator":
+                stackscope.customize(**kw)(codes[f])
+            else:
+                stackscope.customize(codes[f], **kw)
+            continue
 
         def hook(frame, nxt, s=spec, f=f):
             frame.hide = bool(s[2])
@@ -468,7 +501,14 @@ def run_impl(case):
             # both sequence types, so that an empty result is not always the PRUNE singleton ()
             ctor = list if (len(s) > 3 and s[3] == "list") or (len(s) <= 3 and f % 2 == 1) else tuple
             return ctor(one(r) for r in s[1])
-        elaborate_frame.register(codes[f], hook)
+        if cu:
+            kw = dict(hide=cu["hide"], hide_line=cu["hide_line"], prune=cu["prune"], elaborate=hook)
+            if cu.get("form") == "decorator":
+                stackscope.customize(**kw)(codes[f])
+            else:
+                stackscope.customize(codes[f], **kw)
+        else:
+            elaborate_frame.register(codes[f], hook)
 
     fid = {id(fr): i for i, fr in enumerate(frames)}
     oid = {id(ob): i for i, ob in enumerate(objs)}
@@ -557,7 +597,8 @@ def run_impl(case):
         for c in fr.contexts:
             cx.append({"c": getattr(c.obj, "cid", 4999),
                        "kids": [stack_of(k) for k in c.children if isinstance(k, stackscope.Stack)]})
-        return {"f": fid.get(id(fr.pyframe), 4999), "hide": bool(fr.hide), "org": org_of(fr), "cx": cx}
+        return {"f": fid.get(id(fr.pyframe), 4999), "hide": bool(fr.hide), "hide_line": bool(fr.hide_line),
+                "org": org_of(fr), "cx": cx}
 
     def stack_of(st):
         if st.leaf is None:
@@ -678,11 +719,16 @@ def c_cfg(case, guards="all_guards", uguard="100"):
     es = []
     # the hook table is keyed by code object: a frame that shares its code with another one gets the
     # representative's row (frames remain distinct ids in the model)
-    rows = {}
+    rows, custs = {}, {}
     for f in sorted(set(int(k) for k in case["elab"]) | set(range(case["nf"]))):
         rep = code_rep(case, f) if f < case["nf"] else f
+        cu = case.get("cust", {}).get(str(rep))
         if str(rep) in case["elab"]:
             rows[str(f)] = case["elab"][str(rep)]
+        elif cu:
+            rows[str(f)] = ["none", None, True]
+        if cu:
+            custs[str(f)] = cu
     for f, s in rows.items():
         if s[0] == "none":
             v = "ENone"
@@ -692,7 +738,12 @@ def c_cfg(case, guards="all_guards", uguard="100"):
             v = f"(EOne {rit(s[1])})"
         else:
             v = "ERaise"
-        es.append(f"({f}, ({v}, {cbool(s[2])}))")
+        if f in custs:
+            cu = custs[f]
+            user = "None" if s[0] == "none" else f"(Some ({v}, {cbool(s[2])}))"
+            es.append(f"({f}, customized {cbool(cu['hide'])} {cbool(cu['prune'])} {user})")
+        else:
+            es.append(f"({f}, ({v}, {cbool(s[2])}))")
     cx = [f"({f}, " + ("CtxRaise" if s[0] == "raise" else "CtxOk " + clist(map(str, s[1]))) + ")"
           for f, s in case["ctxs"].items()]
     fl = [f"({c}, " + ("FillRaise" if s[0] == "raise" else "FillOk " + clist([c_item(i) for i in s[1]])) + ")"
